@@ -30,7 +30,7 @@ class SpySampler:
 
 
 BOUNDED01 = ("cluster", "mixed", "gaussian_mixture", "mix_distribution", "mix_multi_distributions")
-UNBOUNDED = ("normal", "exponential", "poisson")
+UNBOUNDED = ("normal", "gaussian", "exponential", "poisson")  # "gaussian": get_sampler's alias of "normal"
 
 
 def q(lo, hi, den=8):
@@ -46,7 +46,7 @@ def loc_dist(kinds):
         d = {"kind": k}
         if k == "const":
             d["c"] = draw(q(0, 1))
-        elif k == "normal":
+        elif k in ("normal", "gaussian"):
             d["mean"], d["std"] = draw(q(0, 1)), draw(q(0.125, 1))
         elif k in ("exponential", "poisson"):
             d["rate"] = draw(q(0.5, 4))
@@ -66,10 +66,10 @@ def loc_dist(kinds):
 
 
 LOC_ALL = ["default"] * 6 + ["uniform_str", "uniform_cls", "callable", "spy", "sampler_sub", "const", "center", "corner",
-                             "normal", "exponential", "poisson", "cluster", "mixed", "gaussian_mixture", "mix_distribution",
-                             "mix_multi_distributions"]
+                             "normal", "gaussian", "exponential", "poisson", "cluster", "mixed", "gaussian_mixture",
+                             "mix_distribution", "mix_multi_distributions"]
 LOC_BOUNDED = [k for k in LOC_ALL if k not in UNBOUNDED]
-DEPOT_ALL = ["none"] * 6 + ["uniform_str", "uniform_cls", "spy", "sampler_sub", "const", "center", "corner", "normal"]
+DEPOT_ALL = ["none"] * 6 + ["uniform_str", "uniform_cls", "spy", "sampler_sub", "const", "center", "corner", "normal", "gaussian"]
 DEPOT_BOUNDED = [k for k in DEPOT_ALL if k not in UNBOUNDED]
 
 
@@ -97,8 +97,8 @@ def dist_kwargs(d, name, lo, hi, spies):
         return {key: float(d["c"])}
     if k in ("center", "corner"):
         return {key: k}
-    if k == "normal":
-        return {key: "normal", f"{name}_mean": d["mean"], f"{name}_std": d["std"]}
+    if k in ("normal", "gaussian"):
+        return {key: k, f"{name}_mean": d["mean"], f"{name}_std": d["std"]}
     if k in ("exponential", "poisson"):
         return {key: k, f"{name}_rate": d["rate"]}
     if k == "cluster":
@@ -127,6 +127,76 @@ def dist_range(d, lo, hi):
     if k == "sampler_sub":
         return (lo + d["a"] * (hi - lo), lo + d["b"] * (hi - lo))
     return (lo, hi)
+
+
+# ---- scalar quantities (CVRP demand, MDCPDP lateness weight, MCP item weights / set sizes): the same option routes
+SCALAR_KINDS = ["default"] * 5 + ["uniform_str", "uniform_cls", "callable", "callable_sub", "const", "spy", "sampler_sub"]
+
+
+def scalar_dist(kinds=SCALAR_KINDS):
+    """JSON spec of the distribution of a scalar quantity sampled on [lo, hi] (lo / hi are the generator's own range
+    arguments): `<name>_distribution` = "uniform" | Uniform | callable | constant number, or an explicit `<name>_sampler`."""
+    @st.composite
+    def s(draw):
+        k = draw(st.sampled_from(kinds))
+        d = {"kind": k}
+        if k == "const":
+            d["f"] = draw(st.integers(0, 8)) / 8.0  # constant = lo + f * (hi - lo)
+            d["as_int"] = draw(st.booleans())      # handed over as python int (rounded down) or float
+        elif k in ("sampler_sub", "callable_sub"):
+            a = draw(st.integers(0, 6))
+            d["a"], d["b"] = a / 8.0, draw(st.integers(a + 1, 8)) / 8.0
+        return d
+    return s()
+
+
+def scalar_const(d, lo, hi):
+    """constant inside [lo, hi]; as python int when an integer lies in the range (else as float)"""
+    c = lo + d["f"] * (hi - lo)
+    if d.get("as_int"):
+        i = math.floor(c)
+        if i < lo:
+            i = math.ceil(c)
+        if lo <= i <= hi:
+            return int(i)
+    return float(c)
+
+
+def scalar_kwargs(d, name, lo, hi, spies):
+    from torch.distributions import Uniform
+
+    k = d["kind"]
+    key = f"{name}_distribution"
+    if k == "default":
+        return {}
+    if k == "uniform_str":
+        return {key: "uniform"}
+    if k == "uniform_cls":
+        return {key: Uniform}
+    if k == "callable":
+        return {key: (lambda **kw: Uniform(low=float(lo), high=float(hi), validate_args=False))}
+    if k == "callable_sub":
+        return {key: (lambda **kw: Uniform(low=lo + d["a"] * (hi - lo), high=lo + d["b"] * (hi - lo), validate_args=False))}
+    if k == "const":
+        return {key: scalar_const(d, lo, hi)}
+    if k == "spy":
+        sp = SpySampler(lo, hi)
+        spies[name] = sp
+        return {f"{name}_sampler": sp}
+    if k == "sampler_sub":
+        return {f"{name}_sampler": Uniform(low=lo + d["a"] * (hi - lo), high=lo + d["b"] * (hi - lo), validate_args=False)}
+    raise ValueError(k)
+
+
+def scalar_range(d, lo, hi):
+    """closed range of the raw samples the spec emits"""
+    k = d["kind"]
+    if k == "const":
+        c = scalar_const(d, lo, hi)
+        return (float(c), float(c))
+    if k in ("sampler_sub", "callable_sub"):
+        return (lo + d["a"] * (hi - lo), lo + d["b"] * (hi - lo))
+    return (float(lo), float(hi))
 
 
 def needs_two_points(d):
@@ -182,6 +252,8 @@ def coord_extent(p, with_depot=True):
 class Judge:
     """Collects predicate failures of one generated batch; first failure is reported as the violation."""
 
+    note = None  # e.g. "second call of the same generator object": appended to the message, signatures unchanged
+
     def __init__(self, ctx, gen, case):
         self.ctx, self.gen, self.case = ctx, gen, case
 
@@ -192,7 +264,7 @@ class Judge:
             sig = f"{prefix or self.gen}|{what}"
             if callable(detail):
                 detail = detail()
-            return self.ctx.violation(sig, f"{self.gen}: {msg}", detail)
+            return self.ctx.violation(sig, f"{self.gen}: {msg}" + (f" [{self.note}]" if self.note else ""), detail)
         return True
 
     def shape(self, td, key, shape, dtype=None):
